@@ -34,7 +34,9 @@ static int snapshot(bool all, bool count_only = false) {
         n++;
         if (all) G->owed_all[k] = true; else if (!G->owed_all[k] && fresh < 0) fresh = k;
     }
-    if (!all && !count_only && fresh >= 0) {
+    // a timed waiter in the queue may legitimately take (or miss, by timing out) a notify_one: no claim is made then
+    bool timed_waiting = false; for (int k = 0; k < 16; k++) if (G->begun[k] && !G->returned[k] && G->timed[k]) timed_waiting = true;
+    if (!all && !count_only && fresh >= 0 && !timed_waiting) {
         int avail = 0; for (int k = 0; k < 16; k++) if (G->begun[k] && !G->returned[k] && !G->timed[k] && !G->owed_all[k] && !G->woken[k]) avail++;
         if (G->owed_one < avail) G->owed_one++;
     }
@@ -45,6 +47,7 @@ static void body(mvprog::PT& p) {
     int me = p.idx;
     for (char op : p.ops) {
         if (op == 'y') { thread_yield(); continue; }
+        if (op == 'p') { int npad = pmc_choose(3, PMC_PROG, 0, "pad yields"); for (int kk = 0; kk < npad; kk++) thread_yield(); continue; }   // every arrival order on one vCPU
         if (op == 'W' || op == 'T' || op == 'P') {
             LOCK();
             int r = 0; int e = 0; uint64_t t0 = mv_now();
@@ -151,6 +154,10 @@ static const PmcConfig CFG[] = {
     {"m:W,T|A:tdev", 2, {1,2}, {1,1}, {0,0}, {2,2}, ""},
     {"s:T|N:tdev,early", 3, {1,1}, {1,1}, {0,0}, {2,2}, "waiter thread exits and is disposed right after its timeout: exhibits the stale-waiter-pointer finding"},
     {"m:W,N",        3, {0,0}, {0,0}, {0,0}, {0,0}, "same vCPU"},
+    {"m:pW,pW,pNpN", 3, {0,0}, {0,0}, {0,0}, {0,0}, "one vCPU, every arrival order"},
+    {"s:pW,pW,pA",   3, {0,0}, {0,0}, {0,0}, {0,0}, ""},
+    {"m:pT,pW,pN:tdev", 3, {0,0}, {1,2}, {0,0}, {0,0}, "one vCPU: timeout vs notify in every order"},
+    {"m:pW,pP,pnpa", 2, {0,0}, {0,0}, {0,0}, {0,0}, ""},
     {"m:W|u",        2, {1,2}, {0,0}, {0,0}, {0,0}, "notification without the lock"},
     {"s:W,W|a",      2, {1,2}, {0,0}, {0,0}, {0,0}, ""},
 };
